@@ -82,7 +82,9 @@ def longest_match_bounded(seed):
                 i += 1
         return out, pos
     spaces = [('a-', 9), ("a`'", 6), ('a-~&', 5), (['a', '\\,', '\\%', '\\&',
-                                                    '-'], 4)]
+                                                    '-'], 4),
+              # a double backslash next to blanks and line breaks
+              (['a', '\\\\', ' ', '\n'], 5)]
     n, fails = 0, []
     for alpha, mx in spaces:
         for ln in range(0, mx + 1):
@@ -104,8 +106,9 @@ def longest_match_bounded(seed):
                                 'evaluations': n, 'failures': fails}
     return {'name': 'longest-match-on-short-inputs', 'bounded': True,
             'bound': 'all strings over {a,-} up to length 9, {a,`,\'} up '
-                     'to 6, {a,-,~,&} up to 5, {a,\\,,\\%,\\&,-} up to 4 '
-                     'pieces (no blank lines, so C05 does not interfere)',
+                     'to 6, {a,-,~,&} up to 5, {a,\\,,\\%,\\&,-} up to 4, '
+                     '{a,\\\\,blank,newline} up to 5 pieces (inputs with a '
+                     'white-space-only output line are skipped: C05)',
             'evaluations': n, 'failures': fails}
 
 
